@@ -3,10 +3,20 @@
 //
 // Domain decisions
 //
-//   - Sequences are non-empty strings over {a,c,g,t}, lower case (what obiuniq
-//     writes); "differ by one substitution or one indel" is the unit-cost edit
-//     distance under plain symbol equality.  Ambiguity codes are left out: the
-//     statement does not say how they compare.
+//   - Sequences are non-empty lower case strings (what obiuniq writes) over
+//     {a,c,g,t}; in a part of the data sets a few symbols are IUPAC ambiguity
+//     codes (n, r, y, ...: no-calls kept by the upstream steps).  "Differ by one
+//     substitution or one indel" is the unit-cost edit distance under plain
+//     symbol equality, for every symbol: "acg" and "acn" are two different
+//     sequences for obiuniq (two records), they differ by one substitution, and
+//     the one-difference test obiclean is built on answers on plain equality
+//     (statement of C09: 0 exactly for identical sequences, 1 exactly for edit
+//     distance one).  Nothing is asserted about how ambiguity codes compare for
+//     --distance > 1 (only that the result does not depend on the schedule).
+//   - obiclean_* annotations already present in the input file (a file that went
+//     through obiclean before) are results, not inputs: the output must be the
+//     one obtained from the same file without them (command-line checks only;
+//     the values are well typed: maps of strings / integers, a boolean head flag).
 //   - Record identifiers are unique (obiclean_mutation is keyed by the father's
 //     identifier).  Two records with the same sequence are kept as a rare class:
 //     they do not "differ by one" and must not be linked at distance one.
@@ -62,11 +72,11 @@ func TestMain(m *testing.M) {
 		evid.Spec{Name: "TestPropWorkers", Kind: "rapid", Quick: 240, Thorough: 4800, QuickShards: 8, ThoroughShards: 16},
 		evid.Spec{Name: "TestPropWorkersSmall", Kind: "rapid", Quick: 1200, Thorough: 40000, QuickShards: 2, ThoroughShards: 8},
 		evid.Spec{Name: "TestPropCLI", Kind: "rapid", Quick: 64, Thorough: 1600, QuickShards: 4, ThoroughShards: 16},
-		evid.Spec{Name: "TestPropLarge", Kind: "rapid", Quick: 8, Thorough: 96, QuickShards: 8, ThoroughShards: 16},
+		evid.Spec{Name: "TestPropLarge", Kind: "rapid", Quick: 8, Thorough: 64, QuickShards: 8, ThoroughShards: 16},
 		evid.Spec{Name: "TestPropCLILarge", Kind: "rapid", Quick: 3, Thorough: 32, QuickShards: 3, ThoroughShards: 16},
 	)
 	evid.Commands("obiclean")
-	evid.Note("rule", "exact: 1-4 samples of up to 60 sequences (seeds, stars, chains, two-level hubs of one-difference variants in and out of homopolymers, 2-3 difference variants, unrelated sequences, ties; counts through merged_sample maps or sample/count attributes) built through hook H4 at distance 1, ratio 1 with 1-8 workers and compared with the model edge(s->f) <=> count(f)>count(s) and Levenshtein(s,f)=1 (full-matrix DP), status from out-/in-degree, mutation applied to the father gives the son; non-trivial = the model graph has at least one edge. workers: one to three abundant sequences with 100-1000 sons at distance 1 (100-230 sons carrying 1-3 differences at distance 2..3), every distance 1..3 x ratio {1,0.5,0.1}, H4 with 1 worker vs three worker counts from 2..32, repeated 3 (distance>1: 2) times: nodes (count, SonCount, weight, status) and edge sets equal, SonCount = in-degree, and at the defaults equal to the model; non-trivial = some node has at least 2 x (largest worker count) sons. workers_small: the same comparison on the small data sets. cli: the obiclean command on generated files, --max-cpu 1..32 x --batch-size x arrival-order jitter, repeated runs: per record obiclean_status, obiclean_weight, obiclean_head, the four counters, obiclean_mutation, merged_sample and count equal in all runs, -H keeps exactly the head records, and at the defaults status/mutation equal to the model; non-trivial = at least one record is internal in some sample. Distinct = hash of the data set and options.")
+	evid.Note("rule", "exact: 1-4 samples of up to 60 sequences (seeds, stars, chains, two-level hubs of one-difference variants in and out of homopolymers, 2-3 difference variants, unrelated sequences, ties; in half of the data sets a part of the symbols of the seeds and of the edits are IUPAC ambiguity codes, compared strictly; counts through merged_sample maps or sample/count attributes) built through hook H4 at distance 1, ratio 1 with 1-8 workers and compared with the model edge(s->f) <=> count(f)>count(s) and Levenshtein(s,f)=1 (full-matrix DP), status from out-/in-degree, mutation applied to the father gives the son; non-trivial = the model graph has at least one edge. workers: one to three abundant sequences with 100-1000 sons at distance 1 (100-230 sons carrying 1-3 differences at distance 2..3; a third of the data sets with ambiguity codes in fathers and sons), every distance 1..3 x ratio {1,0.5,0.1}, H4 with 1 worker vs three worker counts from 2..32, repeated 3 (distance>1: 2) times: nodes (count, SonCount, weight, status) and edge sets equal, SonCount = in-degree, and at the defaults equal to the model; non-trivial = some node has at least 2 x (largest worker count) sons. workers_small: the same comparison on the small data sets. large: a compact description (seed, shape) rebuilt into 4 000 - 40 000 records forming clusters (pairs, stars, big stars, two-level; dense or sparse; 1-5 samples; reversed abundances = sons with hundreds of fathers; ties; ambiguity codes) with 8 600 - 30 000 links in ONE sample, distance 1, ratio 1 or 0.5: H4 with 1 worker equals the model (indexed neighbour search, every candidate confirmed by the one-edit predicate, cross-checked against the pairwise model on every small data set) and H4 with two worker counts from 2..32 equals the 1-worker result; non-trivial = the largest sample holds at least 8 000 links. cli: the obiclean command on generated files, --max-cpu 1..32 x --batch-size x arrival-order jitter, repeated runs: per record obiclean_status, obiclean_weight, obiclean_head, the four counters, obiclean_mutation, merged_sample and count equal in all runs, -H keeps exactly the head records, and at the defaults status/mutation/weights equal to the model; a quarter of the files carry the annotations of an earlier obiclean run on an earlier state of the data set (counts changed, records and samples dropped or added), a quarter arbitrary well-typed obiclean_* annotations: the output must equal the output for the same file without them; non-trivial = at least one record is internal in some sample. cli_large: the command on a large file (at least 17 200 links in one sample), reference run with 1-3 cpus against the model and against a run with another --max-cpu; non-trivial = at least 8 000 links per worker of the reference run. Distinct = hash of the data set (or of its description) and options.")
 	evid.Main(m, "C13")
 }
 
